@@ -2,8 +2,25 @@
 import json, os, resource, subprocess, sys, time, fcntl, shutil
 
 WORK = os.environ.get("VERIF_WORK", "/verif/.work")
+REPO = os.environ.get("VERIF_REPO", "/repo")
 CRATE = "/verif/replay"
 TARGET = os.path.join(WORK, "replay-target")
+
+
+def _crate_dir():
+    """the replay crate; for an alternative repository (VERIF_REPO, used by tools/seedtest.sh) a copy with its path dependencies rewritten"""
+    if REPO == "/repo":
+        return CRATE
+    d = os.path.join(WORK, "replay-src")
+    os.makedirs(os.path.join(d, "src"), exist_ok=True)
+    for rel in ("Cargo.toml", "src/main.rs"):
+        t = open(os.path.join(CRATE, rel)).read()
+        if rel == "Cargo.toml":
+            t = t.replace("/repo/crates/", REPO.rstrip("/") + "/crates/")
+        old = open(os.path.join(d, rel)).read() if os.path.exists(os.path.join(d, rel)) else None
+        if old != t:
+            open(os.path.join(d, rel), "w").write(t)
+    return d
 _built = {}
 
 
@@ -17,14 +34,15 @@ def build(profile="dev", log=None):
         env = dict(os.environ)
         env["CARGO_NET_OFFLINE"] = "true"
         env.pop("RUSTFLAGS", None)
-        lockfile = os.path.join(CRATE, "Cargo.lock")
-        if not os.path.exists(lockfile) and os.path.exists("/repo/Cargo.lock"):
-            shutil.copy("/repo/Cargo.lock", lockfile)
+        crate = _crate_dir()
+        lockfile = os.path.join(crate, "Cargo.lock")
+        if not os.path.exists(lockfile) and os.path.exists(os.path.join(REPO, "Cargo.lock")):
+            shutil.copy(os.path.join(REPO, "Cargo.lock"), lockfile)
         cmd = ["cargo", "build", "--offline", "--target-dir", TARGET]
         if profile == "release":
             cmd.append("--release")
         t0 = time.time()
-        r = subprocess.run(cmd, cwd=CRATE, env=env, stdout=subprocess.PIPE, stderr=subprocess.STDOUT)
+        r = subprocess.run(cmd, cwd=crate, env=env, stdout=subprocess.PIPE, stderr=subprocess.STDOUT)
         if r.returncode != 0:
             sys.stderr.write(r.stdout.decode(errors="replace")[-4000:])
             raise RuntimeError("native replay driver failed to build against /repo")
